@@ -269,6 +269,30 @@ CHECKS['C19'] = dict(
 NOT_YET = {}
 
 
+# what the last session (seed rounds 9 and 10) added to models / theorems / streams; appended to the level text
+ADDENDA = {
+    'C01': ' Deterministic grids added to the oracle: closures escaping by every route, two kinds of jump in one loop, bodies that consist of a docstring / constant only.',
+    'C03': ' Added: visit_Delete translated and modelled (Contract/Delete), getter_total_across_delete; the oracle re-reads the state after every branch and iteration.',
+    'C04': ' Added: tuple-valued child fields in the traversal discipline (slice-store bounds under LISTS).',
+    'C05': ' Added stream: layered try/finally and loops whose jumps of different targets share finally guards, with directed decision vectors.',
+    'C06': ' Added stream: explicit raise deeper in a try body than the fall-through path.',
+    'C07': ' Added: liveness judged inside nested-function activations (closure reads of enclosing local functions), reads in every position of comprehensions.',
+    'C09': ' Added: cache configuration translated (Iface/Served), served_by_equal_code, address_key_serves_other_function; short-lived module episodes with address reuse.',
+    'C10': ' Added: allowlist key chain translated, function-object layer (allowlist_key_is_function_object, enabled_entity_requests_converted); entry layer above the transpiler cache (entry_coherent).',
+    'C11': ' Added: names of the generated wrapper scopes (wrapper_names_never_capture, requests_go_to_context_namer).',
+    'C14': ' Added: namespace model for globals() / locals() (globals_locals_hand_out_own_mapping) judged on multi-step traces.',
+    'C15': ' Added: file layouts and text normalisation before parsing (parse_norm, never_substituted_in_file); modules outside sys.modules.',
+    'C16': ' Added: inner functions of converted code as callees (scope-options decision tree translated, status_inside_nested_function).',
+    'C17': ' Added: docstring layouts through the loader (the text written for the module must re-parse to the tree), tiny bodies.',
+    'C18': ' Added: anf_renaming_invariant (the transformation commutes with every renaming of program variables), hoist template translated; lazily evaluated positions of try statements.',
+    'C19': ' Added: closure certificate for sibling local functions (closure_types_reach_callee_entry, closure_late_site_refuted); two known findings.',
+    'C20': ' Added: option flow through both scope entry points (callee_options_through_scopes).',
+}
+for _k, _v in ADDENDA.items():
+    if _k in CHECKS:
+        CHECKS[_k]['text'] = CHECKS[_k]['text'] + _v
+
+
 def main():
     props = [json.loads(l) for l in open(os.path.join(ROOT, 'properties.jsonl'))]
     checks = []
